@@ -47,14 +47,17 @@ func c06Templates(r *core.Rng) string { return core.Pick(r, []string{"testify", 
 // genC06World builds one project biased to the constructs C06's anchors name.
 func genC06World(r *core.Rng) (*world.Project, []string) {
 	var feats []string
-	o := world.GenOpts{MinPkgs: 2, MaxPkgs: 5, MaxIfacesPerPkg: 3, AllowXRef: true}
+	o := world.GenOpts{MinPkgs: 2, MaxPkgs: 5, MaxIfacesPerPkg: 3, AllowXRef: true, DupNames: r.Chance(1, 4)}
 	pkgs := world.GenPackages(r, o)
+	if o.DupNames {
+		feats = append(feats, "same-interface-names-across-packages")
+	}
 	p := &world.Project{Module: "example.com/w", Pkgs: pkgs, Aux: map[string]string{}}
 	cfg := world.NewY()
 	cfg.Set("force-file-write", true)
 	cfg.Set("template", c06Templates(r))
 	cfg.Set("formatter", core.Pick(r, []string{"goimports", "gofmt", "noop", "noop"}))
-	placement := core.Pick(r, []string{"inpkg", "inpkg-test", "separate", "separate-flat", "default"})
+	placement := core.Pick(r, []string{"inpkg", "inpkg-test", "separate", "separate-flat", "default", "separate-structname-file"})
 	feats = append(feats, "place:"+placement)
 	switch placement {
 	case "inpkg":
@@ -68,6 +71,11 @@ func genC06World(r *core.Rng) (*world.Project, []string) {
 	case "separate":
 		cfg.Set("dir", "mocks/{{.SrcPackagePath}}")
 		cfg.Set("filename", "mocks.go")
+		cfg.Set("pkgname", "mocks")
+	case "separate-structname-file":
+		// a templated value that needs two passes of the fixpoint (StructName is itself templated)
+		cfg.Set("dir", "mocks/{{.SrcPackagePath}}")
+		cfg.Set("filename", "mock_{{.StructName}}.go")
 		cfg.Set("pkgname", "mocks")
 	case "separate-flat":
 		cfg.Set("dir", "allmocks")
@@ -143,6 +151,27 @@ func genC06World(r *core.Rng) (*world.Project, []string) {
 				ifs := e.Sub("interfaces")
 				for j, n := range names {
 					ic := ifs.Sub(n)
+					if decl := q.FindIface(n); decl != nil && decl.XRefPath != "" && r.Chance(2, 3) {
+						// one source type replaced by two different targets, in two output files
+						feats = append(feats, "replace-type-two-targets")
+						var lst []any
+						for k, target := range []string{"Thing2", "Thing3"} {
+							y := world.NewY().Set("structname", fmt.Sprintf("%sRepl%d", n, k))
+							switch placement {
+							case "separate-flat":
+								y.Set("filename", fmt.Sprintf("{{.SrcPackageName}}_%s_repl%d.go", strings.ToLower(n), k))
+							case "inpkg":
+								y.Set("filename", fmt.Sprintf("zz_repl%d_mocks.go", k))
+							case "separate-structname-file":
+							default:
+								y.Set("filename", fmt.Sprintf("repl%d_mocks_test.go", k))
+							}
+							y.Sub("replace-type").Sub(decl.XRefPath).Sub("Thing").Set("pkg-path", decl.XRefPath).Set("type-name", target)
+							lst = append(lst, y)
+						}
+						ic.Set("configs", lst)
+						continue
+					}
 					if r.Chance(1, 3) {
 						// several configs for one interface, landing in one or several files
 						feats = append(feats, "multi-configs")
